@@ -29,6 +29,7 @@ LEVEL_TEXT = (
     "header/path resp. the physical file line. EEMSWrite must write the result names in listed order and one row per "
     "cell whose text parses back to the bit-identical double, and EEMSRead of the written file must return bit-identical "
     "arrays. Sampled, not exhaustive."
+    ' Read cases may first hold and read another table at the same path; write cases may overwrite a file read before and may list a result several times.'
 )
 LEVEL_NOTE = "Integer columns are limited to |v| <= 2**53 (the reader parses through float); arrays are 1-D (the writer's documented assumption)."
 RULE = (
